@@ -43,7 +43,7 @@ LIMIT = rc.CODE_SIZE
 def plan(tier, seed):
     cases = []
     light = ['empty', 'onechar', 'short', 'typical', 'typical', 'repetitive_small', 'update60_start', 'update60_middle',
-             'update60_end', 'crlf', 'glyphs', 'version0', 'stream_entry', 'convert', 'cli_entry']
+             'update60_end', 'update60_raw', 'crlf', 'glyphs', 'version0', 'stream_entry', 'convert', 'cli_entry']
     nl = 15 if tier == 'quick' else 120
     for r in range(nl):
         for c in light:
@@ -86,6 +86,9 @@ def make_code(rng, c):
     if cls == 'repetitive_big':
         unit = rng.choice((b'x=1\n', b'print("abc")\n'))
         return unit * (c['n'] // len(unit))
+    if cls == 'update60_raw':
+        # code that mentions _update60 and does not shrink: it is stored as it is
+        return carts.incompressible(rng, rng.choice((200, 3000, 9000))) + rng.choice((b'\nfunction _update60() end\n', b'\n_update60=nil', b'\nif(_update60) x=1\n'))
     if cls.startswith('update60_'):
         return carts.simple_lua(rng, rng.choice((60, 800)), update60=cls.split('_')[1])
     if cls == 'incompressible':
@@ -138,14 +141,18 @@ def code_matches(got, want):
 
 
 def random_label_png(rng):
-    rows = [bytearray(carts.random_bytes(rng, rc.CART_W * 4)) for _ in range(rc.CART_H)]
-    filters = [rng.randrange(5) for _ in range(rc.CART_H)]
+    w, h = rc.CART_W, rc.CART_H
+    if rng.random() < 0.15:
+        # a picture that is not cartridge-sized but has room for the cart (a screenshot at double size, a row or column more)
+        w, h = rng.choice(((320, 410), (160, 206), (161, 205), (200, 300), (205, 160)))
+    rows = [bytearray(carts.random_bytes(rng, w * 4)) for _ in range(h)]
+    filters = [rng.randrange(5) for _ in range(h)]
     # what an image editor leaves in a retouched cartridge picture: ancillary chunks, several IDAT chunks
     import struct
     pool = [(b'gAMA', struct.pack('>I', 45455)), (b'pHYs', struct.pack('>IIB', 2835, 2835, 1)), (b'bKGD', struct.pack('>HHH', 0, 0, 0)),
             (b'tEXt', b'Software\x00some editor'), (b'sRGB', b'\x00'), (b'tIME', struct.pack('>HBBBBB', 2021, 3, 4, 5, 6, 7))]
     extra = [c for c in pool if rng.random() < 0.3]
-    return rc.png_encode(rc.CART_W, rc.CART_H, rows, filters, extra_chunks=extra, idat_pieces=rng.choice((1, 1, 3, 40))), rows
+    return rc.png_encode(w, h, rows, filters, extra_chunks=extra, idat_pieces=rng.choice((1, 1, 3, 40))), rows
 
 
 _BLANK = {}
@@ -217,6 +224,15 @@ def run_case(ctx, rng, c, workdir):
         g.lua = Lua.from_lines([code], version=rng.choice([v for v in (33, 8, 41, 1, 255) if v != version]))
         ctx.feature('code_object_of_another_version')
         case['history'] = 'game.lua was replaced by a Lua object made for another version before saving'
+    if rng.random() < 0.15:
+        # the cart's sprite sheet is replaced by another Gfx object (the library allows assigning sections, `build --gfx` does it; the
+        # map keeps the object it was created with): the cart's gfx is what game.gfx holds now
+        from pico8.gfx.gfx import Gfx
+        regions = dict(regions, gfx=carts.random_bytes(rng, 8192))
+        g.gfx = Gfx.from_bytes(regions['gfx'], version=version or 8)
+        case['regions'] = dict(regions)
+        case['history'] = case.get('history', '') + '; game.gfx was replaced by another Gfx object before saving'
+        ctx.feature('gfx_object_replaced')
     # the same destination path is reused for the whole shard: a write must take its label from what is at the path NOW
     dest = os.path.join(workdir, BASE[0] + '.p8.png')
     if os.path.exists(dest):
@@ -317,7 +333,9 @@ def run_case(ctx, rng, c, workdir):
             len(code), est), case, key=classify(code, version, 'ok', None))
         return
     try:
-        ref = rc.read_p8png(data)
+        ref = rc.read_p8png(data, strict=False)
+        if len(label_rows) != rc.CART_H or len(label_rows[0]) != rc.CART_W * 4:
+            ctx.feature('label_source_of_another_size')
     except rc.FormatError as e:
         ctx.violation('written file is not a valid cart PNG: %s' % e, case, key=classify(code, version, 'invalid', None))
         return
@@ -458,7 +476,7 @@ def gates(m, tier):
     f, mon = m['features'], m['monitors']
     missed = []
     for k in ('class:empty', 'class:onechar', 'class:short', 'class:typical', 'class:repetitive_small', 'class:update60_start',
-              'class:update60_middle', 'class:update60_end', 'class:incompressible', 'class:near_compressed', 'class:oversize',
+              'class:update60_middle', 'class:update60_end', 'class:update60_raw', 'gfx_object_replaced', 'label_source_of_another_size', 'class:incompressible', 'class:near_compressed', 'class:oversize',
               'class:repetitive_big', 'class:convert', 'class:stream_entry', 'class:cli_entry', 'dest_exists', 'dest_absent'):
         if f.get(k, 0) < 1:
             missed.append('%s never generated' % k)
